@@ -131,6 +131,7 @@ def conv_work(P, item):
     P.stats.note_query([z3.Or(bad)], res)
     if res == z3.unsat:
         P.obligation(nm, "holds", symbolic=True)
+        P.witness("c13", dict(kind="convolve", n=n, tl=tl, ref=ref), f"witness-convolve-{n}-{tl}-{ref}", nm)
     elif res == z3.unknown:
         P.inconclusive_(nm + ": solver unknown")
     else:
